@@ -1,5 +1,6 @@
 import FP.Model.WalkCore
 import FP.Model.Euler
+import FP.Model.Round
 /-!
 # FP.Model.WalkDecode — `get_solution_walks`: residual graph per layer + Eulerian reconstruction
 -/
@@ -10,8 +11,9 @@ edge `(u, v)` in `G.edges()` order `multiplicity` copies of `v` appended to `u`'
 def buildResidual (g : Graph) (m : Edge → Nat) : Euler.Adj Node :=
   g.nodes.map fun v => (v, (g.outEdges v).flatMap fun e => List.replicate (m e) e.2)
 
-/-- `round(self.edge_vars_sol[edge_key])` for a value that is a non-negative integer -/
-def multOf (a : Asg) (i : Nat) (e : Edge) : Nat := (a (edgeVar e i)).floor.toNat
+/-- `range(round(self.edge_vars_sol[edge_key]))`: python's `round` (nearest integer, ties to even),
+a negative count gives no iteration -/
+def multOf (a : Asg) (i : Nat) (e : Edge) : Nat := pyRoundCount (a (edgeVar e i))
 
 /-- one layer of `get_solution_walks` -/
 def decodeWalkLayer (s : STGraph) (a : Asg) (i : Nat) : List Node :=
